@@ -21,7 +21,8 @@ META = {
                         "(zero column) factors; MAP Taylor point on an arbitrary DenseNormal (lower-triangular factor) with a "
                         "time-dependent affine constraint; residual linearisation at the MAP point.  S: the whole routine with "
                         "the real while loop, maxiter in {1,2,3} (loop unrolled maxiter times, unwinding condition discharged), "
-                        "D=2, k=1, symbolic tolerance, products/quotients/norms as uninterpreted functions",
+                        "D=2, k=1, symbolic tolerance, products/quotients/norms as uninterpreted functions; the real cond_fun on an "
+                        "ARBITRARY loop state (iteration counter 0, maxiter-1, maxiter) against the documented three-way rule",
                "thorough": "D=4,k=2 and D=3,k=2 bilinear step cases; maxiter 4"},
     "assumptions": ["A1 reals", "A4 lstsq contract: minimum-norm least squares (normal equations + range condition)",
                     "J Sigma J^T is non-singular (inconsistent/redundant constraint rows are outside)",
@@ -34,7 +35,7 @@ META = {
 def cases(tier):
     out = ["step/D2k1/affine/full", "step/D2k1/quad/full", "step/D3k1/quad/full", "step/D3k2/affine/full",
            "step/D3k1/quad/singular", "step/D3k2/affine/singular", "map/D3k1/affine/lower", "map/D3k2/affine/lower",
-           "lin/n2d1/affine/lower", "loop/M1", "loop/M2", "loop/M3"]
+           "lin/n2d1/affine/lower", "loop/M1", "loop/M2", "loop/M3", "cond/M3/i0", "cond/M3/i2", "cond/M3/i3"]
     if tier == "thorough":
         out += ["step/D3k2/quad/full", "step/D4k2/affine/full", "loop/M4"]
     return out
@@ -313,6 +314,123 @@ def run_loop(case_id, res, seed, replay_dir, log):
                                "proved" if r == "sat" else "unknown", "queries": 1})
 
 
+def _install_norm_hook(dom):
+    """Euclidean norm: |x| for one component, otherwise an uninterpreted NORM of the components (a FUNCTION, so the
+    routine's stopping rule and the obligations see the same term)"""
+    import math
+    import z3
+    orig_sqrt = dom.sqrt
+    norm_apps = []
+
+    def sqrt_hook(a):
+        xs = z3.simplify(a)
+        if z3.is_rational_value(xs):
+            v = Fraction(xs.numerator_as_long(), xs.denominator_as_long())
+            return z3.RealVal(str(Fraction(math.sqrt(v))))
+        terms = list(xs.children()) if z3.is_add(xs) else [xs]
+        comps = []
+        for t_ in terms:
+            if z3.is_app(t_) and t_.decl().name() == "MUL" and t_.arg(0).eq(t_.arg(1)):
+                comps.append(t_.arg(0))
+            else:
+                return orig_sqrt(a)
+        if len(comps) == 1:
+            return z3.If(comps[0] >= 0, comps[0], -comps[0])
+        r_ = dom.uf(f"NORM{len(comps)}", tuple(comps))
+        norm_apps.append((comps, r_))
+        return r_
+    dom.sqrt = sqrt_hook
+    return norm_apps
+
+
+def _cond_real(M, i_val, fx, dx, tol_):
+    """the REAL cond_fun of the routine on a given loop state (reached through its while_loop argument)"""
+    import dataclasses
+    import jax.numpy as jnp
+    from probdiffeq import probdiffeq
+    box = {}
+    D = len(dx)
+
+    def hook(cond, body, init):
+        box["c"] = cond(dataclasses.replace(init, fx=fx, dx=dx, i=i_val))
+        return init
+    nl = probdiffeq.lstsq_constrained_gauss_newton(maxiter=M, tol=tol_, while_loop=hook)
+    nl(lambda s_: jnp.stack([s_[0] + s_[1]]), jnp.ones(D), jnp.ones(D), jnp.eye(D))
+    return box["c"]
+
+
+def run_cond(case_id, res, seed, replay_dir, log):
+    """cond_fun on an ARBITRARY loop state: the loop continues exactly when the constraint is not met to tolerance AND
+    budget is left AND the last increment is not small (the documented three-way rule)"""
+    import math
+    import z3
+    import jax
+    import jax.numpy as jnp
+    from jxs.interp import Interp
+    from jxs.zdomain import Z3Domain, zarr, zvec
+    from jxs.trace import count_eqns
+    _, mm, ii = case_id.split("/")
+    M, i_val = int(mm[1:]), int(ii[1:])
+    D, k = 2, 1
+    dom = Z3Domain(linearize=True)
+    dom.linearize_dot = True
+    norm_apps = _install_norm_hook(dom)
+    FX = [z3.Real("fx0")]
+    DX = [z3.Real(f"dx{j}") for j in range(D)]
+    tol = z3.Real("tol")
+    closed = jax.make_jaxpr(lambda fx, dx, t: _cond_real(M, i_val, fx, dx, t))(jnp.ones(k), jnp.ones(D), 1e-6)
+    it = Interp(dom)
+    (c_impl,) = it.eval(closed.jaxpr, closed.consts, [zvec(FX), zvec(DX), zarr(tol)])
+    c_impl = c_impl[()]
+    if not z3.is_expr(c_impl):
+        c_impl = z3.BoolVal(bool(c_impl))
+    res["encoded"] = {"jaxpr_eqns": count_eqns(closed.jaxpr), "eqns_interpreted": it.n_eqns,
+                      "primitives": dict(sorted(it.prims_seen.items())), "norm_apps": len(norm_apps)}
+    nf = _norm(dom, FX)
+    nd = _norm(dom, DX)
+    side = list(dom.side) + [tol > 0]
+    for comps, nr in norm_apps:
+        side += [nr >= 0, z3.Implies(z3.And([c_ == 0 for c_ in comps]), nr == 0)]
+    want = z3.And(nf > tol * z3.RealVal(str(Fraction(math.sqrt(k)))), z3.BoolVal(i_val < M),
+                  nd > tol * z3.RealVal(str(Fraction(math.sqrt(D)))))
+    name = "continue <=> (|f| > tol sqrt(rows)) and (i < maxiter) and (|dx| > tol sqrt(D))"
+    t0 = time.time()
+    sv = z3.Solver(); sv.set("timeout", 60000)
+    for a in side:
+        sv.add(a)
+    sv.add(c_impl != want)
+    r = str(sv.check())
+    entry = {"id": f"C19/{case_id}/{name}", "status": {"unsat": "proved", "sat": "violated"}.get(r, "unknown"),
+             "solver_s": round(time.time() - t0, 2), "queries": 1}
+    if r == "sat":
+        mdl = sv.model()
+
+        def val(v):
+            x = mdl.eval(v, model_completion=True)
+            return float(x.numerator_as_long()) / float(x.denominator_as_long())
+        # a concrete state with the model's norms: fx = (f0), dx = (|dx|, 0)
+        info = {"maxiter": M, "i": i_val, "fx": [val(FX[0])], "dx": [val(nd), 0.0], "tol": val(tol), "obligation": name,
+                "kind_cond": True}
+        ok, detail = cond_oracle(info)
+        info["detail"] = detail
+        if not ok:
+            entry["replay"] = _write_replay(replay_dir, case_id, name, info)
+        else:
+            entry["status"] = "unknown"
+            entry["note"] = "abstract counterexample did not reproduce on the real routine: " + json.dumps(detail)[:200]
+    log(f"  [C19/{case_id}] {name}: {entry['status']} {entry['solver_s']}s")
+    res["obligations"].append(entry)
+
+
+def cond_oracle(info):
+    import math
+    import jax.numpy as jnp
+    fx, dx, tol, M, i_val = info["fx"], info["dx"], info["tol"], info["maxiter"], info["i"]
+    got = bool(_cond_real(M, i_val, jnp.asarray(fx), jnp.asarray(dx), tol))
+    want = (np.linalg.norm(fx) > tol * math.sqrt(len(fx))) and (i_val < M) and (np.linalg.norm(dx) > tol * math.sqrt(len(dx)))
+    return got == bool(want), {"real_cond": got, "documented_rule": bool(want)}
+
+
 def _norm(dom, comps):
     tot = None
     for cpt in comps:
@@ -390,11 +508,11 @@ def _case(case_id, tier):
 
 
 def run_case(case_id, tier="quick", seed=0, replay_dir=None, log=print):
-    if case_id.startswith("loop/"):
+    if case_id.startswith("loop/") or case_id.startswith("cond/"):
         t0 = time.time()
         res = {"case": "C19/" + case_id, "obligations": [], "status": "ok", "notes": []}
         try:
-            run_loop(case_id, res, seed, replay_dir, log)
+            (run_loop if case_id.startswith("loop/") else run_cond)(case_id, res, seed, replay_dir, log)
         except Exception as ex:  # noqa: BLE001
             res["status"] = "error"
             res["notes"].append(traceback.format_exc())
@@ -407,6 +525,10 @@ def run_case(case_id, tier="quick", seed=0, replay_dir=None, log=print):
 def replay(path):
     with open(path) as f:
         data = json.load(f)
+    if data.get("kind") == "loop" and data["info"].get("kind_cond"):
+        ok, detail = cond_oracle(data["info"])
+        print("replay", data["case"], "holds" if ok else "VIOLATED", json.dumps(detail))
+        return not ok
     if data.get("kind") == "loop":
         ok, detail = loop_oracle(data["info"])
         print("replay", data["case"], data["info"]["obligation"], "holds" if ok else "VIOLATED", json.dumps(detail)[:400])
